@@ -235,20 +235,22 @@ def has_trigger(value, lit):
         return True
     if ")" in lit:
         return True
-    if any(ord(c) >= 128 for c in lit):
-        return True
     return False
 
 
 def clean_message(rng):
-    """ASCII message outside every known class: quotes, backslashes, opening parentheses, commas,
-    equals signs, LF/TAB are all allowed; keywords, closing parentheses and non-ASCII are not."""
+    """message outside every known class: quotes, backslashes, opening parentheses, commas, equals signs,
+    LF/TAB and (since the char_indices repair) multi-byte characters are allowed; keywords and closing
+    parentheses are not."""
     for _ in range(50):
         n = rng.randint(0, 7)
         parts = []
         for _ in range(n):
-            if rng.random() < 0.3:
+            r = rng.random()
+            if r < 0.3:
                 parts.append(rng.choice(CLEAN_PUNCT))
+            elif r < 0.42:
+                parts.append(rng.choice(MULTI))
             else:
                 parts.append(rng.choice(CLEAN_WORDS))
             if rng.random() < 0.7:
@@ -324,7 +326,7 @@ def gen_type(rng, kind, wild):
         t = ["n", rng.choice(NUM_TYPES)]
     elif kind == "v":
         inner = rng.choice(["s", ["n", "i32"], "b", ["n", "u8"], ["v", "s"], ["c", "Inner"]])
-        if wild and rng.random() < 0.5:
+        if rng.random() < (0.5 if wild else 0.25):
             inner = rng.choice([["o", "s"], ["o", ["n", "f64"]], ["v", ["o", "s"]], ["o", ["v", "s"]]])
         t = ["v", inner]
     elif kind == "b":
